@@ -546,9 +546,419 @@ static __attribute__((noinline)) void f_memory(void)
     }
 }
 
-static const struct { const char *name; void (*f)(void); } fam[] = {
-    { "trees", f_trees }, { "heap", f_heap }, { "hash", f_hash }, { "map", f_map }, { "vector", f_vector }, { "string", f_string },
-    { "dlist", f_dlist }, { "slist", f_slist }, { "array", f_array }, { "memory", f_memory },
+
+/* ---- argument expressions with side effects ----
+ * A client may write cstl_heap_get(&queue[i++]) or cstl_array_at(&a, next_index()): ISO C 7.1.4 promises that a library
+ * function, also one that is additionally implemented as a function-like macro, evaluates each of its arguments exactly
+ * once.  An accessor turned into a macro that mentions a parameter twice (an inline "fast path" in a public header) keeps
+ * every object-level oracle happy as long as the arguments are plain variables -- which is what every model harness passes.
+ * Here every public entry point of the family is called once with each argument wrapped in a counting expression, and the
+ * accessors are additionally called through a cursor that walks over two objects. */
+static int nev;
+static void bump(void) { nev++; }      /* a call: argument evaluations are then indeterminately sequenced, not unsequenced */
+#define A(x) (bump(), (x))
+#define ONCE(n, entry, stmt) do { nev = 0; VRT_OP0(entry, "every argument expression has a side effect"); stmt; \
+        CK(nev == (n), "once." entry, "the %d argument expressions of one call were evaluated %d times in total", (n), nev); \
+        VRT_COUNT("reread.once-calls"); } while (0)
+static int once_visit(void *e, void *p) { (void)e; ++*(int *)p; return 0; }
+static int once_cvisit(const void *e, void *p) { (void)e; ++*(int *)p; return 0; }
+static int once_bvisit(const void *e, cstl_bintree_visit_order_t o, void *p) { (void)e; (void)o; ++*(int *)p; return 0; }
+
+static __attribute__((noinline)) void once_trees(void)
+{
+    struct cstl_bintree bt[2];
+    struct cstl_rbtree rt[2];
+    int c, cnt = 0;
+    size_t mn, mx;
+    const void *r;
+    mk();
+    keytab[0] = 10; keytab[1] = 20; keytab[2] = 30; keytab[3] = 40;
+    ONCE(4, "bintree.init", cstl_bintree_init(A(&bt[0]), A(cmp_el), A(NULL), A(offsetof(struct el, bn))));
+    ONCE(4, "bintree.init", cstl_bintree_init(A(&bt[1]), A(cmp_el), A(NULL), A(offsetof(struct el, bn))));
+    ONCE(4, "rbtree.init", cstl_rbtree_init(A(&rt[0]), A(cmp_el), A(NULL), A(offsetof(struct el, rn))));
+    ONCE(4, "rbtree.init", cstl_rbtree_init(A(&rt[1]), A(cmp_el), A(NULL), A(offsetof(struct el, rn))));
+    ONCE(3, "bintree.insert", cstl_bintree_insert(A(&bt[0]), A(E[0]), A(NULL)));
+    ONCE(3, "bintree.insert", cstl_bintree_insert(A(&bt[1]), A(E[1]), A(NULL)));
+    ONCE(3, "rbtree.insert", cstl_rbtree_insert(A(&rt[0]), A(E[2]), A(NULL)));
+    ONCE(3, "rbtree.insert", cstl_rbtree_insert(A(&rt[1]), A(E[3]), A(NULL)));
+    /* the cursor walks over two trees: each call must look at exactly one of them and advance the cursor once */
+    c = 0; r = cstl_bintree_find(&bt[c++], E[0], NULL); CK(c == 1 && r == E[0], "once.cursor.bintree.find", "find(&bt[c++], ...) advanced the cursor %d times / looked at the wrong tree", c);
+    c = 0; CK(cstl_bintree_size(&bt[c++]) == 1 && c == 1, "once.cursor.bintree.size", "size(&bt[c++]) advanced the cursor %d times", c);
+    c = 0; r = cstl_rbtree_find(&rt[c++], E[2], NULL); CK(c == 1 && r == E[2], "once.cursor.rbtree.find", "find(&rt[c++], ...) advanced the cursor %d times / looked at the wrong tree", c);
+    c = 0; CK(cstl_rbtree_size(&rt[c++]) == 1 && c == 1, "once.cursor.rbtree.size", "size(&rt[c++]) advanced the cursor %d times", c);
+    ONCE(3, "bintree.find", r = cstl_bintree_find(A(&bt[1]), A(E[1]), A(NULL))); CK(r == E[1], "once.bintree.find.result", "wrong element");
+    ONCE(3, "rbtree.find", r = cstl_rbtree_find(A(&rt[1]), A(E[3]), A(NULL))); CK(r == E[3], "once.rbtree.find.result", "wrong element");
+    ONCE(1, "bintree.size", mn = cstl_bintree_size(A(&bt[0]))); CK(mn == 1, "once.bintree.size.result", "size %zu", mn);
+    ONCE(1, "rbtree.size", mn = cstl_rbtree_size(A(&rt[0]))); CK(mn == 1, "once.rbtree.size.result", "size %zu", mn);
+    ONCE(3, "bintree.height", cstl_bintree_height(A(&bt[0]), A(&mn), A(&mx))); CK(mn == 1 && mx == 1, "once.bintree.height.result", "height %zu %zu", mn, mx);
+    ONCE(3, "rbtree.height", cstl_rbtree_height(A(&rt[0]), A(&mn), A(&mx))); CK(mn == 1 && mx == 1, "once.rbtree.height.result", "height %zu %zu", mn, mx);
+    ONCE(4, "bintree.foreach", cstl_bintree_foreach(A(&bt[0]), A(once_bvisit), A(&cnt), A(CSTL_BINTREE_FOREACH_DIR_FWD)));
+    ONCE(4, "rbtree.foreach", cstl_rbtree_foreach(A(&rt[0]), A(once_bvisit), A(&cnt), A(CSTL_BINTREE_FOREACH_DIR_REV)));
+    CK(cnt == 2, "once.trees.foreach.result", "%d visits for one leaf in each of two trees", cnt);
+    ONCE(2, "bintree.swap", cstl_bintree_swap(A(&bt[0]), A(&bt[1])));
+    ONCE(2, "rbtree.swap", cstl_rbtree_swap(A(&rt[0]), A(&rt[1])));
+    CK(cstl_bintree_find(&bt[0], E[1], NULL) == E[1] && cstl_rbtree_find(&rt[0], E[3], NULL) == E[3], "once.trees.swap.result", "contents after swap");
+    ONCE(2, "bintree.erase", r = cstl_bintree_erase(A(&bt[0]), A(E[1]))); CK(r == E[1], "once.bintree.erase.result", "wrong element");
+    ONCE(2, "rbtree.erase", r = cstl_rbtree_erase(A(&rt[0]), A(E[3]))); CK(r == E[3], "once.rbtree.erase.result", "wrong element");
+    ncallbacks = 0;
+    ONCE(3, "bintree.clear", cstl_bintree_clear(A(&bt[1]), A(noop), A(NULL)));
+    ONCE(3, "rbtree.clear", cstl_rbtree_clear(A(&rt[1]), A(noop), A(NULL)));
+    CK(ncallbacks == 2, "once.trees.clear.result", "%d callbacks", ncallbacks);
+    unmk();
+}
+
+static __attribute__((noinline)) void once_heap(void)
+{
+    struct cstl_heap q[2];
+    int c;
+    const void *r;
+    size_t n;
+    mk();
+    keytab[0] = 10; keytab[1] = 20; keytab[2] = 30;
+    ONCE(4, "heap.init", cstl_heap_init(A(&q[0]), A(cmp_el), A(NULL), A(offsetof(struct el, hn))));
+    ONCE(4, "heap.init", cstl_heap_init(A(&q[1]), A(cmp_el), A(NULL), A(offsetof(struct el, hn))));
+    ONCE(2, "heap.push", cstl_heap_push(A(&q[0]), A(E[0])));
+    ONCE(2, "heap.push", cstl_heap_push(A(&q[1]), A(E[1])));
+    ONCE(2, "heap.push", cstl_heap_push(A(&q[1]), A(E[2])));
+    c = 0; r = cstl_heap_get(&q[c++]); CK(c == 1 && r == E[0], "once.cursor.heap.get", "get(&q[c++]) advanced the cursor %d times / returned the top of the wrong heap", c);
+    c = 0; r = cstl_heap_get(&q[c++ & 1]); r = cstl_heap_get(&q[c++ & 1]); CK(c == 2 && r == E[2], "once.cursor.heap.get", "two get(&q[c++ & 1]) calls advanced the cursor %d times", c);
+    c = 0; n = cstl_heap_size(&q[c++]); CK(c == 1 && n == 1, "once.cursor.heap.size", "size(&q[c++]) advanced the cursor %d times", c);
+    ONCE(1, "heap.get", r = cstl_heap_get(A(&q[1]))); CK(r == E[2], "once.heap.get.result", "wrong element");
+    ONCE(1, "heap.size", n = cstl_heap_size(A(&q[1]))); CK(n == 2, "once.heap.size.result", "size %zu", n);
+    ONCE(2, "heap.swap", cstl_heap_swap(A(&q[0]), A(&q[1])));
+    c = 0; r = cstl_heap_pop(&q[c++]); CK(c == 1 && r == E[2], "once.cursor.heap.pop", "pop(&q[c++]) advanced the cursor %d times / popped from the wrong heap", c);
+    ONCE(1, "heap.pop", r = cstl_heap_pop(A(&q[0]))); CK(r == E[1], "once.heap.pop.result", "wrong element");
+    ncallbacks = 0;
+    ONCE(2, "heap.clear", cstl_heap_clear(A(&q[1]), A(noop)));
+    CK(ncallbacks == 1 && cstl_heap_size(&q[0]) == 0 && cstl_heap_size(&q[1]) == 0, "once.heap.clear.result", "%d callbacks", ncallbacks);
+    unmk();
+}
+
+static size_t once_hashf(size_t k, size_t m) { return k % m; }
+static __attribute__((noinline)) void once_hash(void)
+{
+    struct cstl_hash h[2];
+    int c, cnt = 0;
+    const void *r;
+    size_t n;
+    float ld;
+    mk();
+    ONCE(2, "hash.init", cstl_hash_init(A(&h[0]), A(offsetof(struct el, xn))));
+    ONCE(2, "hash.init", cstl_hash_init(A(&h[1]), A(offsetof(struct el, xn))));
+    ONCE(3, "hash.resize", cstl_hash_resize(A(&h[0]), A(8), A(once_hashf)));
+    ONCE(3, "hash.resize", cstl_hash_resize(A(&h[1]), A(4), A(NULL)));
+    ONCE(3, "hash.insert", cstl_hash_insert(A(&h[0]), A(77), A(E[0])));
+    ONCE(3, "hash.insert", cstl_hash_insert(A(&h[1]), A(78), A(E[1])));
+    ONCE(3, "hash.insert", cstl_hash_insert(A(&h[1]), A(79), A(E[2])));
+    c = 0; r = cstl_hash_find(&h[c++], 77, NULL, NULL); CK(c == 1 && r == E[0], "once.cursor.hash.find", "find(&h[c++], ...) advanced the cursor %d times / looked at the wrong table", c);
+    c = 0; n = cstl_hash_size(&h[c++]); CK(c == 1 && n == 1, "once.cursor.hash.size", "size(&h[c++]) advanced the cursor %d times", c);
+    c = 0; ld = cstl_hash_load(&h[c++]); CK(c == 1 && ld == 1.0f / 8, "once.cursor.hash.load", "load(&h[c++]) advanced the cursor %d times", c);
+    ONCE(4, "hash.find", r = cstl_hash_find(A(&h[1]), A(79), A(NULL), A(NULL))); CK(r == E[2], "once.hash.find.result", "wrong element");
+    ONCE(1, "hash.size", n = cstl_hash_size(A(&h[1]))); CK(n == 2, "once.hash.size.result", "size %zu", n);
+    ONCE(1, "hash.load", ld = cstl_hash_load(A(&h[1]))); CK(ld == 0.5f, "once.hash.load.result", "load %f", (double)ld);
+    ONCE(3, "hash.foreach", cstl_hash_foreach(A(&h[1]), A(once_visit), A(&cnt)));
+    ONCE(3, "hash.foreach_const", cstl_hash_foreach_const(A(&h[1]), A(once_cvisit), A(&cnt)));
+    CK(cnt == 4, "once.hash.foreach.result", "%d visits", cnt);
+    ONCE(3, "hash.resize", cstl_hash_resize(A(&h[1]), A(16), A(NULL)));
+    ONCE(1, "hash.rehash", cstl_hash_rehash(A(&h[1])));
+    ONCE(1, "hash.shrink_to_fit", cstl_hash_shrink_to_fit(A(&h[1])));
+    ONCE(2, "hash.swap", cstl_hash_swap(A(&h[0]), A(&h[1])));
+    CK(cstl_hash_find(&h[0], 78, NULL, NULL) == E[1] && cstl_hash_find(&h[1], 77, NULL, NULL) == E[0], "once.hash.swap.result", "contents after swap");
+    ONCE(2, "hash.erase", cstl_hash_erase(A(&h[0]), A(E[1])));
+    CK(cstl_hash_size(&h[0]) == 1, "once.hash.erase.result", "size after erase");
+    ONCE(2, "hash.div", n = cstl_hash_div(A(29), A(7))); CK(n == 1, "once.hash.div.result", "29 mod 7 = %zu", n);
+    ONCE(2, "hash.mul", n = cstl_hash_mul(A(29), A(7))); CK(n < 7, "once.hash.mul.result", "out of range %zu", n);
+    ncallbacks = 0;
+    ONCE(2, "hash.clear", cstl_hash_clear(A(&h[0]), A(noop)));
+    ONCE(2, "hash.clear", cstl_hash_clear(A(&h[1]), A(noop)));
+    CK(ncallbacks == 2, "once.hash.clear.result", "%d callbacks", ncallbacks);
+    unmk();
+}
+
+static __attribute__((noinline)) void once_map(void)
+{
+    cstl_map_t m[2];
+    static int k[4] = { 1, 2, 3, 4 }, v[4];
+    cstl_map_iterator_t it, it2;
+    const cstl_map_iterator_t *e;
+    int c, rc;
+    size_t n;
+    ONCE(3, "map.init", cstl_map_init(A(&m[0]), A(cmp_int), A(NULL)));
+    ONCE(3, "map.init", cstl_map_init(A(&m[1]), A(cmp_int), A(NULL)));
+    ONCE(4, "map.insert", rc = cstl_map_insert(A(&m[0]), A(&k[0]), A(&v[0]), A(&it))); CK(rc == 0 && it.key == &k[0], "once.map.insert.result", "rc %d", rc);
+    ONCE(4, "map.insert", rc = cstl_map_insert(A(&m[1]), A(&k[1]), A(&v[1]), A(NULL))); CK(rc == 0, "once.map.insert.result", "rc %d", rc);
+    ONCE(4, "map.insert", rc = cstl_map_insert(A(&m[1]), A(&k[2]), A(&v[2]), A(NULL))); CK(rc == 0, "once.map.insert.result", "rc %d", rc);
+    c = 0; n = cstl_map_size(&m[c++]); CK(c == 1 && n == 1, "once.cursor.map.size", "size(&m[c++]) advanced the cursor %d times", c);
+    c = 0; cstl_map_find(&m[c++], &k[0], &it); CK(c == 1 && it.val == &v[0], "once.cursor.map.find", "find(&m[c++], ...) advanced the cursor %d times / looked at the wrong map", c);
+    c = 0; e = cstl_map_iterator_end(&m[c++]); CK(c == 1 && e != NULL, "once.cursor.map.iterator_end", "iterator_end(&m[c++]) advanced the cursor %d times", c);
+    ONCE(1, "map.size", n = cstl_map_size(A(&m[1]))); CK(n == 2, "once.map.size.result", "size %zu", n);
+    ONCE(3, "map.find", cstl_map_find(A(&m[1]), A(&k[2]), A(&it))); CK(it.key == &k[2] && it.val == &v[2], "once.map.find.result", "wrong entry");
+    ONCE(1, "map.iterator_end", e = cstl_map_iterator_end(A(&m[1])));
+    ONCE(2, "map.iterator_eq", rc = cstl_map_iterator_eq(A(&it), A(e))); CK(!rc, "once.map.iterator_eq.result", "a found entry equals end");
+    cstl_map_find(&m[1], &k[3], &it2);
+    ONCE(2, "map.iterator_eq", rc = cstl_map_iterator_eq(A(&it2), A(e))); CK(rc, "once.map.iterator_eq.result", "an absent key's iterator differs from end");
+    ONCE(2, "map.erase_iterator", cstl_map_erase_iterator(A(&m[1]), A(&it)));
+    ONCE(3, "map.erase", rc = cstl_map_erase(A(&m[1]), A(&k[1]), A(&it))); CK(rc == 0 && it.key == &k[1] && it.val == &v[1], "once.map.erase.result", "rc %d", rc);
+    ncallbacks = 0;
+    ONCE(3, "map.clear", cstl_map_clear(A(&m[0]), A(noop), A(NULL)));
+    ONCE(3, "map.clear", cstl_map_clear(A(&m[1]), A(noop), A(NULL)));
+    CK(ncallbacks == 1 && vrt_lib_live() == 0, "once.map.clear.result", "%d callbacks", ncallbacks);
+}
+
+static __attribute__((noinline)) void once_vector(void)
+{
+    struct cstl_vector v[2];
+    uint32_t raw[8] = { 5, 3, 7, 1, 8, 2, 6, 4 }, probe = 7, tmp;
+    size_t i, n;
+    int c;
+    void *p;
+    ssize_t ix;
+    ONCE(2, "vector.init", cstl_vector_init(A(&v[0]), A(sizeof(uint32_t))));
+    ONCE(5, "vector.init_complex", cstl_vector_init_complex(A(&v[1]), A(sizeof(uint32_t)), A(v_ctor), A(v_dtor), A(NULL)));
+    ONCE(2, "vector.reserve", cstl_vector_reserve(A(&v[0]), A(16)));
+    ONCE(2, "vector.resize", cstl_vector_resize(A(&v[0]), A(8)));
+    ONCE(2, "vector.resize", cstl_vector_resize(A(&v[1]), A(3)));
+    for (i = 0; i < 8; i++) *(uint32_t *)cstl_vector_at(&v[0], i) = raw[i];
+    /* the classic walk: at(&v, i++) */
+    for (i = 0, n = 0; i < 8; n++) { const uint32_t *q = cstl_vector_at(&v[0], i++); CK(*q == raw[n] && i == n + 1, "once.cursor.vector.at", "at(&v, i++) advanced the index to %zu after %zu calls / returned the wrong element", i, n + 1); }
+    for (i = 0, n = 0; i < 8; n++) { const uint32_t *q = cstl_vector_at_const(&v[0], i++); CK(*q == raw[n] && i == n + 1, "once.cursor.vector.at_const", "at_const(&v, i++) advanced the index to %zu after %zu calls", i, n + 1); }
+    c = 0; n = cstl_vector_size(&v[c++]); CK(c == 1 && n == 8, "once.cursor.vector.size", "size(&v[c++]) advanced the cursor %d times", c);
+    c = 0; n = cstl_vector_capacity(&v[c++]); CK(c == 1 && n >= 16, "once.cursor.vector.capacity", "capacity(&v[c++]) advanced the cursor %d times", c);
+    c = 0; p = cstl_vector_data(&v[c++]); CK(c == 1 && p == cstl_vector_at(&v[0], 0), "once.cursor.vector.data", "data(&v[c++]) advanced the cursor %d times", c);
+    ONCE(1, "vector.size", n = cstl_vector_size(A(&v[1]))); CK(n == 3, "once.vector.size.result", "size %zu", n);
+    ONCE(1, "vector.capacity", n = cstl_vector_capacity(A(&v[1]))); CK(n >= 3, "once.vector.capacity.result", "capacity %zu", n);
+    ONCE(1, "vector.data", p = cstl_vector_data(A(&v[1]))); CK(p != NULL, "once.vector.data.result", "NULL data");
+    ONCE(2, "vector.at", p = cstl_vector_at(A(&v[1]), A(2))); CK(p == (char *)cstl_vector_data(&v[1]) + 8, "once.vector.at.result", "wrong address");
+    ONCE(2, "vector.at_const", p = (void *)cstl_vector_at_const(A(&v[1]), A(1))); CK(p == (char *)cstl_vector_data(&v[1]) + 4, "once.vector.at_const.result", "wrong address");
+    ONCE(3, "vector.sort", cstl_vector_sort(A(&v[0]), A(cmp_u32), A(NULL)));
+    for (i = 0; i < 8; i++) CK(*(uint32_t *)cstl_vector_at(&v[0], i) == i + 1, "once.vector.sort.result", "element %zu", i);
+    ONCE(4, "vector.search", ix = cstl_vector_search(A(&v[0]), A(&probe), A(cmp_u32), A(NULL))); CK(ix == 6, "once.vector.search.result", "index %zd", ix);
+    ONCE(4, "vector.find", ix = cstl_vector_find(A(&v[0]), A(&probe), A(cmp_u32), A(NULL))); CK(ix == 6, "once.vector.find.result", "index %zd", ix);
+    ONCE(1, "vector.reverse", cstl_vector_reverse(A(&v[0]))); CK(*(uint32_t *)cstl_vector_at(&v[0], 0) == 8, "once.vector.reverse.result", "first element");
+    ONCE(2, "vector.swap", cstl_vector_swap(A(&v[0]), A(&v[1]))); CK(cstl_vector_size(&v[0]) == 3 && cstl_vector_size(&v[1]) == 8, "once.vector.swap.result", "sizes after swap");
+    ONCE(1, "vector.shrink_to_fit", cstl_vector_shrink_to_fit(A(&v[1]))); CK(cstl_vector_capacity(&v[1]) == 8, "once.vector.shrink_to_fit.result", "capacity");
+    ONCE(1, "vector.clear", cstl_vector_clear(A(&v[0])));
+    ONCE(1, "vector.clear", cstl_vector_clear(A(&v[1])));
+    ONCE(8, "raw_array.sort", cstl_raw_array_sort(A(raw), A(8), A(sizeof(raw[0])), A(cmp_u32), A(NULL), A(cstl_swap), A(&tmp), A(CSTL_SORT_ALGORITHM_HEAP)));
+    for (i = 0; i < 8; i++) CK(raw[i] == i + 1, "once.raw_array.sort.result", "element %zu", i);
+    ONCE(6, "raw_array.search", ix = cstl_raw_array_search(A(raw), A(8), A(sizeof(raw[0])), A(&probe), A(cmp_u32), A(NULL))); CK(ix == 6, "once.raw_array.search.result", "index %zd", ix);
+    ONCE(6, "raw_array.find", ix = cstl_raw_array_find(A(raw), A(8), A(sizeof(raw[0])), A(&probe), A(cmp_u32), A(NULL))); CK(ix == 6, "once.raw_array.find.result", "index %zd", ix);
+    ONCE(5, "raw_array.reverse", cstl_raw_array_reverse(A(raw), A(8), A(sizeof(raw[0])), A(cstl_swap), A(&tmp))); CK(raw[0] == 8 && raw[7] == 1, "once.raw_array.reverse.result", "ends");
+    CK(vrt_lib_live() == 0, "once.vector.leak", "library blocks left");
+}
+
+static __attribute__((noinline)) void once_string(void)
+{
+    cstl_string_t s[2];
+    cstl_wstring_t w[2];
+    size_t i, n;
+    int c, rc;
+    ssize_t ix;
+    const char *p;
+    ONCE(1, "string.init", cstl_string_init(A(&s[0]))); ONCE(1, "string.init", cstl_string_init(A(&s[1])));
+    ONCE(1, "wstring.init", cstl_wstring_init(A(&w[0]))); ONCE(1, "wstring.init", cstl_wstring_init(A(&w[1])));
+    ONCE(2, "string.set_str", cstl_string_set_str(A(&s[0]), A("hello")));
+    ONCE(2, "wstring.set_str", cstl_wstring_set_str(A(&w[0]), A(L"hello")));
+    ONCE(2, "string.reserve", cstl_string_reserve(A(&s[1]), A(20)));
+    ONCE(2, "string.append_str", cstl_string_append_str(A(&s[1]), A("wor")));
+    ONCE(3, "string.append_str_n", cstl_string_append_str_n(A(&s[1]), A("ldxx"), A(2)));
+    ONCE(3, "string.append_ch", cstl_string_append_ch(A(&s[1]), A(2), A('!')));
+    ONCE(2, "string.append", cstl_string_append(A(&s[0]), A(&s[1])));
+    CK(strcmp(cstl_string_str(&s[0]), "helloworld!!") == 0, "once.string.append.result", "content '%s'", cstl_string_str(&s[0]));
+    ONCE(4, "string.insert_ch", cstl_string_insert_ch(A(&s[0]), A(5), A(1), A(' ')));
+    ONCE(3, "string.insert_str", cstl_string_insert_str(A(&s[0]), A(0), A(">")));
+    ONCE(4, "string.insert_str_n", cstl_string_insert_str_n(A(&s[0]), A(1), A("> x"), A(2)));
+    ONCE(3, "string.insert", cstl_string_insert(A(&s[1]), A(0), A(&s[1])));
+    CK(strcmp(cstl_string_str(&s[0]), ">> hello world!!") == 0 && strcmp(cstl_string_str(&s[1]), "world!!world!!") == 0, "once.string.insert.result", "content '%s' / '%s'", cstl_string_str(&s[0]), cstl_string_str(&s[1]));
+    /* the classic walk: at(&s, i++) */
+    p = cstl_string_str(&s[0]);
+    for (i = 0, n = 0; i < 16; n++) { const char ch = *cstl_string_at(&s[0], i++); CK(ch == p[n] && i == n + 1, "once.cursor.string.at", "at(&s, i++) advanced the index to %zu after %zu calls / returned the wrong character", i, n + 1); }
+    for (i = 0, n = 0; i < 16; n++) { const char ch = *cstl_string_at_const(&s[0], i++); CK(ch == p[n] && i == n + 1, "once.cursor.string.at_const", "at_const(&s, i++) advanced the index to %zu after %zu calls", i, n + 1); }
+    for (i = 0, n = 0; i < 5; n++) { const wchar_t ch = *cstl_wstring_at(&w[0], i++); CK(ch == L"hello"[n] && i == n + 1, "once.cursor.wstring.at", "at(&w, i++) advanced the index to %zu after %zu calls", i, n + 1); }
+    c = 0; n = cstl_string_size(&s[c++]); CK(c == 1 && n == 16, "once.cursor.string.size", "size(&s[c++]) advanced the cursor %d times", c);
+    c = 0; p = cstl_string_str(&s[c++]); CK(c == 1 && p[0] == '>', "once.cursor.string.str", "str(&s[c++]) advanced the cursor %d times", c);
+    c = 0; p = cstl_string_data(&s[c++]); CK(c == 1 && p[0] == '>', "once.cursor.string.data", "data(&s[c++]) advanced the cursor %d times", c);
+    c = 0; n = cstl_string_capacity(&s[c++]); CK(c == 1 && n >= 16, "once.cursor.string.capacity", "capacity(&s[c++]) advanced the cursor %d times", c);
+    c = 0; n = cstl_wstring_size(&w[c++]); CK(c == 1 && n == 5, "once.cursor.wstring.size", "size(&w[c++]) advanced the cursor %d times", c);
+    ONCE(1, "string.size", n = cstl_string_size(A(&s[1]))); CK(n == 14, "once.string.size.result", "size %zu", n);
+    ONCE(1, "string.capacity", n = cstl_string_capacity(A(&s[1]))); CK(n >= 14, "once.string.capacity.result", "capacity %zu", n);
+    ONCE(1, "string.str", p = cstl_string_str(A(&s[1]))); CK(p[0] == 'w', "once.string.str.result", "content");
+    ONCE(1, "string.data", p = cstl_string_data(A(&s[1]))); CK(p[0] == 'w', "once.string.data.result", "content");
+    ONCE(2, "string.at", p = cstl_string_at(A(&s[1]), A(1))); CK(*p == 'o', "once.string.at.result", "character");
+    ONCE(2, "string.at_const", p = cstl_string_at_const(A(&s[1]), A(2))); CK(*p == 'r', "once.string.at_const.result", "character");
+    ONCE(2, "string.compare_str", rc = cstl_string_compare_str(A(&s[1]), A("world!!world!!"))); CK(rc == 0, "once.string.compare_str.result", "rc %d", rc);
+    ONCE(2, "string.compare", rc = cstl_string_compare(A(&s[0]), A(&s[1]))); CK(rc < 0, "once.string.compare.result", "rc %d", rc);
+    ONCE(3, "string.find_ch", ix = cstl_string_find_ch(A(&s[1]), A('!'), A(7))); CK(ix == 12, "once.string.find_ch.result", "index %zd", ix);
+    ONCE(3, "string.find_str", ix = cstl_string_find_str(A(&s[1]), A("ld"), A(4))); CK(ix == 10, "once.string.find_str.result", "index %zd", ix);
+    ONCE(3, "string.find", ix = cstl_string_find(A(&s[0]), A(&s[1]), A(0))); CK(ix == -1, "once.string.find.result", "index %zd", ix);
+    ONCE(4, "string.substr", cstl_string_substr(A(&s[0]), A(3), A(5), A(&s[1]))); CK(strcmp(cstl_string_str(&s[1]), "hello") == 0, "once.string.substr.result", "content '%s'", cstl_string_str(&s[1]));
+    ONCE(3, "string.erase", cstl_string_erase(A(&s[0]), A(0), A(3))); CK(strcmp(cstl_string_str(&s[0]), "hello world!!") == 0, "once.string.erase.result", "content '%s'", cstl_string_str(&s[0]));
+    ONCE(2, "string.resize", cstl_string_resize(A(&s[0]), A(5))); CK(cstl_string_compare(&s[0], &s[1]) == 0, "once.string.resize.result", "content '%s'", cstl_string_str(&s[0]));
+    ONCE(2, "string.swap", cstl_string_swap(A(&s[0]), A(&s[1])));
+    ONCE(2, "wstring.swap", cstl_wstring_swap(A(&w[0]), A(&w[1]))); CK(cstl_wstring_size(&w[0]) == 0 && cstl_wstring_size(&w[1]) == 5, "once.wstring.swap.result", "sizes after swap");
+    ONCE(3, "wstring.find_ch", ix = cstl_wstring_find_ch(A(&w[1]), A(L'l'), A(3))); CK(ix == 3, "once.wstring.find_ch.result", "index %zd", ix);
+    ONCE(1, "string.clear", cstl_string_clear(A(&s[0]))); ONCE(1, "string.clear", cstl_string_clear(A(&s[1])));
+    ONCE(1, "wstring.clear", cstl_wstring_clear(A(&w[0]))); ONCE(1, "wstring.clear", cstl_wstring_clear(A(&w[1])));
+    CK(vrt_lib_live() == 0, "once.string.leak", "library blocks left");
+}
+
+static __attribute__((noinline)) void once_dlist(void)
+{
+    struct cstl_dlist l[2];
+    int c, cnt = 0, rc;
+    void *r;
+    size_t n;
+    mk();
+    keytab[0] = 30; keytab[1] = 10; keytab[2] = 20; keytab[3] = 40; keytab[4] = 50;
+    ONCE(2, "dlist.init", cstl_dlist_init(A(&l[0]), A(offsetof(struct el, dn))));
+    ONCE(2, "dlist.init", cstl_dlist_init(A(&l[1]), A(offsetof(struct el, dn))));
+    ONCE(2, "dlist.push_back", cstl_dlist_push_back(A(&l[0]), A(E[0])));
+    ONCE(2, "dlist.push_front", cstl_dlist_push_front(A(&l[0]), A(E[1])));
+    ONCE(3, "dlist.insert", cstl_dlist_insert(A(&l[0]), A(E[1]), A(E[2])));         /* 10 20 30 */
+    ONCE(2, "dlist.push_back", cstl_dlist_push_back(A(&l[1]), A(E[3])));
+    ONCE(2, "dlist.push_back", cstl_dlist_push_back(A(&l[1]), A(E[4])));             /* 40 50 */
+    c = 0; r = cstl_dlist_front(&l[c++]); CK(c == 1 && r == E[1], "once.cursor.dlist.front", "front(&l[c++]) advanced the cursor %d times / looked at the wrong list", c);
+    c = 0; r = cstl_dlist_back(&l[c++]); CK(c == 1 && r == E[0], "once.cursor.dlist.back", "back(&l[c++]) advanced the cursor %d times / looked at the wrong list", c);
+    c = 0; n = cstl_dlist_size(&l[c++]); CK(c == 1 && n == 3, "once.cursor.dlist.size", "size(&l[c++]) advanced the cursor %d times", c);
+    c = 0; r = cstl_dlist_front(&l[c++ & 1]); r = cstl_dlist_front(&l[c++ & 1]); CK(c == 2 && r == E[3], "once.cursor.dlist.front", "two front(&l[c++ & 1]) calls advanced the cursor %d times", c);
+    ONCE(1, "dlist.front", r = cstl_dlist_front(A(&l[1]))); CK(r == E[3], "once.dlist.front.result", "wrong element");
+    ONCE(1, "dlist.back", r = cstl_dlist_back(A(&l[1]))); CK(r == E[4], "once.dlist.back.result", "wrong element");
+    ONCE(1, "dlist.size", n = cstl_dlist_size(A(&l[1]))); CK(n == 2, "once.dlist.size.result", "size %zu", n);
+    ONCE(5, "dlist.find", r = cstl_dlist_find(A(&l[0]), A(E[2]), A(cmp_el), A(NULL), A(CSTL_DLIST_FOREACH_DIR_FWD))); CK(r == E[2], "once.dlist.find.result", "wrong element");
+    ONCE(4, "dlist.foreach", rc = cstl_dlist_foreach(A(&l[0]), A(once_visit), A(&cnt), A(CSTL_DLIST_FOREACH_DIR_REV))); CK(rc == 0 && cnt == 3, "once.dlist.foreach.result", "%d visits", cnt);
+    ONCE(1, "dlist.reverse", cstl_dlist_reverse(A(&l[0]))); CK(cstl_dlist_front(&l[0]) == E[0], "once.dlist.reverse.result", "front after reverse");
+    ONCE(3, "dlist.sort", cstl_dlist_sort(A(&l[0]), A(cmp_el), A(NULL))); CK(cstl_dlist_front(&l[0]) == E[1] && cstl_dlist_back(&l[0]) == E[0], "once.dlist.sort.result", "ends after sort");
+    ONCE(2, "dlist.swap", cstl_dlist_swap(A(&l[0]), A(&l[1]))); CK(cstl_dlist_size(&l[0]) == 2 && cstl_dlist_size(&l[1]) == 3, "once.dlist.swap.result", "sizes after swap");
+    ONCE(2, "dlist.concat", cstl_dlist_concat(A(&l[1]), A(&l[0]))); CK(cstl_dlist_size(&l[1]) == 5 && cstl_dlist_size(&l[0]) == 0 && cstl_dlist_back(&l[1]) == E[4], "once.dlist.concat.result", "sizes after concat");
+    ONCE(2, "dlist.erase", cstl_dlist_erase(A(&l[1]), A(E[2]))); CK(cstl_dlist_size(&l[1]) == 4, "once.dlist.erase.result", "size after erase");
+    c = 1; r = cstl_dlist_pop_front(&l[c--]); CK(c == 0 && r == E[1], "once.cursor.dlist.pop_front", "pop_front(&l[c--]) moved the cursor to %d / popped from the wrong list", c);
+    ONCE(1, "dlist.pop_front", r = cstl_dlist_pop_front(A(&l[1]))); CK(r == E[0], "once.dlist.pop_front.result", "wrong element");
+    ONCE(1, "dlist.pop_back", r = cstl_dlist_pop_back(A(&l[1]))); CK(r == E[4], "once.dlist.pop_back.result", "wrong element");
+    ncallbacks = 0;
+    ONCE(2, "dlist.clear", cstl_dlist_clear(A(&l[1]), A(noop))); CK(ncallbacks == 1 && cstl_dlist_size(&l[1]) == 0, "once.dlist.clear.result", "%d callbacks", ncallbacks);
+    unmk();
+}
+
+static __attribute__((noinline)) void once_slist(void)
+{
+    struct cstl_slist l[2];
+    int c, cnt = 0, rc;
+    void *r;
+    size_t n;
+    mk();
+    keytab[0] = 30; keytab[1] = 10; keytab[2] = 20; keytab[3] = 40; keytab[4] = 50;
+    ONCE(2, "slist.init", cstl_slist_init(A(&l[0]), A(offsetof(struct el, sn))));
+    ONCE(2, "slist.init", cstl_slist_init(A(&l[1]), A(offsetof(struct el, sn))));
+    ONCE(2, "slist.push_back", cstl_slist_push_back(A(&l[0]), A(E[0])));
+    ONCE(2, "slist.push_front", cstl_slist_push_front(A(&l[0]), A(E[1])));
+    ONCE(3, "slist.insert_after", cstl_slist_insert_after(A(&l[0]), A(E[1]), A(E[2])));     /* 10 20 30 */
+    ONCE(2, "slist.push_back", cstl_slist_push_back(A(&l[1]), A(E[3])));
+    ONCE(2, "slist.push_back", cstl_slist_push_back(A(&l[1]), A(E[4])));                     /* 40 50 */
+    c = 0; r = cstl_slist_front(&l[c++]); CK(c == 1 && r == E[1], "once.cursor.slist.front", "front(&l[c++]) advanced the cursor %d times / looked at the wrong list", c);
+    c = 0; r = cstl_slist_back(&l[c++]); CK(c == 1 && r == E[0], "once.cursor.slist.back", "back(&l[c++]) advanced the cursor %d times / looked at the wrong list", c);
+    c = 0; n = cstl_slist_size(&l[c++]); CK(c == 1 && n == 3, "once.cursor.slist.size", "size(&l[c++]) advanced the cursor %d times", c);
+    ONCE(1, "slist.front", r = cstl_slist_front(A(&l[1]))); CK(r == E[3], "once.slist.front.result", "wrong element");
+    ONCE(1, "slist.back", r = cstl_slist_back(A(&l[1]))); CK(r == E[4], "once.slist.back.result", "wrong element");
+    ONCE(1, "slist.size", n = cstl_slist_size(A(&l[1]))); CK(n == 2, "once.slist.size.result", "size %zu", n);
+    ONCE(3, "slist.foreach", rc = cstl_slist_foreach(A(&l[0]), A(once_visit), A(&cnt))); CK(rc == 0 && cnt == 3, "once.slist.foreach.result", "%d visits", cnt);
+    ONCE(1, "slist.reverse", cstl_slist_reverse(A(&l[0]))); CK(cstl_slist_front(&l[0]) == E[0] && cstl_slist_back(&l[0]) == E[1], "once.slist.reverse.result", "ends after reverse");
+    ONCE(3, "slist.sort", cstl_slist_sort(A(&l[0]), A(cmp_el), A(NULL))); CK(cstl_slist_front(&l[0]) == E[1] && cstl_slist_back(&l[0]) == E[0], "once.slist.sort.result", "ends after sort");
+    ONCE(2, "slist.swap", cstl_slist_swap(A(&l[0]), A(&l[1]))); CK(cstl_slist_size(&l[0]) == 2 && cstl_slist_size(&l[1]) == 3, "once.slist.swap.result", "sizes after swap");
+    ONCE(2, "slist.concat", cstl_slist_concat(A(&l[1]), A(&l[0]))); CK(cstl_slist_size(&l[1]) == 5 && cstl_slist_size(&l[0]) == 0 && cstl_slist_back(&l[1]) == E[4], "once.slist.concat.result", "sizes after concat");
+    ONCE(2, "slist.erase_after", r = cstl_slist_erase_after(A(&l[1]), A(E[1]))); CK(r == E[2] && cstl_slist_size(&l[1]) == 4, "once.slist.erase_after.result", "wrong element");
+    c = 1; r = cstl_slist_pop_front(&l[c--]); CK(c == 0 && r == E[1], "once.cursor.slist.pop_front", "pop_front(&l[c--]) moved the cursor to %d / popped from the wrong list", c);
+    ONCE(1, "slist.pop_front", r = cstl_slist_pop_front(A(&l[1]))); CK(r == E[0], "once.slist.pop_front.result", "wrong element");
+    ncallbacks = 0;
+    ONCE(2, "slist.clear", cstl_slist_clear(A(&l[1]), A(noop))); CK(ncallbacks == 2 && cstl_slist_size(&l[1]) == 0, "once.slist.clear.result", "%d callbacks", ncallbacks);
+    unmk();
+}
+
+static __attribute__((noinline)) void once_array(void)
+{
+    cstl_array_t a[2], sl;
+    static uint32_t ext[6] = { 9, 8, 7, 6, 5, 4 };
+    size_t i, n;
+    int c;
+    void *p;
+    ONCE(1, "array.init", cstl_array_init(A(&a[0]))); ONCE(1, "array.init", cstl_array_init(A(&a[1]))); cstl_array_init(&sl);
+    ONCE(3, "array.alloc", cstl_array_alloc(A(&a[0]), A(8), A(sizeof(uint32_t))));
+    ONCE(4, "array.set", cstl_array_set(A(&a[1]), A(ext), A(6), A(sizeof(ext[0]))));
+    for (i = 0; i < 8; i++) *(uint32_t *)cstl_array_at(&a[0], i) = (uint32_t)(100 + i);
+    /* the classic walk: at(&a, i++) -- the last call is the one whose second evaluation would be one past the end */
+    for (i = 0, n = 0; i < 8; n++) { const uint32_t *q = cstl_array_at(&a[0], i++); CK(*q == 100 + n && i == n + 1, "once.cursor.array.at", "at(&a, i++) advanced the index to %zu after %zu calls / returned the wrong element", i, n + 1); }
+    for (i = 0, n = 0; i < 6; n++) { const uint32_t *q = cstl_array_at_const(&a[1], i++); CK(q == &ext[n] && i == n + 1, "once.cursor.array.at_const", "at_const(&a, i++) advanced the index to %zu after %zu calls", i, n + 1); }
+    c = 0; n = cstl_array_size(&a[c++]); CK(c == 1 && n == 8, "once.cursor.array.size", "size(&a[c++]) advanced the cursor %d times", c);
+    c = 0; p = cstl_array_data(&a[c++]); CK(c == 1 && p == cstl_array_at(&a[0], 0), "once.cursor.array.data", "data(&a[c++]) advanced the cursor %d times", c);
+    ONCE(1, "array.size", n = cstl_array_size(A(&a[1]))); CK(n == 6, "once.array.size.result", "size %zu", n);
+    ONCE(1, "array.data", p = cstl_array_data(A(&a[1]))); CK(p == ext, "once.array.data.result", "wrong address");
+    ONCE(1, "array.data_const", p = (void *)cstl_array_data_const(A(&a[1]))); CK(p == ext, "once.array.data_const.result", "wrong address");
+    ONCE(2, "array.at", p = cstl_array_at(A(&a[1]), A(5))); CK(p == &ext[5], "once.array.at.result", "wrong address");
+    ONCE(2, "array.at_const", p = (void *)cstl_array_at_const(A(&a[1]), A(0))); CK(p == &ext[0], "once.array.at_const.result", "wrong address");
+    ONCE(4, "array.slice", cstl_array_slice(A(&a[0]), A(2), A(5), A(&sl))); CK(cstl_array_size(&sl) == 3 && *(uint32_t *)cstl_array_at(&sl, 0) == 102, "once.array.slice.result", "view");
+    ONCE(2, "array.unslice", cstl_array_unslice(A(&sl), A(&sl))); CK(cstl_array_size(&sl) == 8, "once.array.unslice.result", "size");
+    ONCE(1, "array.reset", cstl_array_reset(A(&sl)));
+    ONCE(2, "array.release", cstl_array_release(A(&a[1]), A(&p))); CK(p == ext, "once.array.release.result", "buffer %p", p);
+    ONCE(1, "array.reset", cstl_array_reset(A(&a[0]))); ONCE(1, "array.reset", cstl_array_reset(A(&a[1])));
+    CK(vrt_lib_live() == 0, "once.array.leak", "library blocks left");
+}
+
+static __attribute__((noinline)) void once_memory(void)
+{
+    cstl_shared_ptr_t sp[2];
+    cstl_weak_ptr_t wp[2];
+    cstl_unique_ptr_t up[2];
+    struct cstl_guarded_ptr gp[2];
+    int c, word = 0, b;
+    void *p, *q;
+    cstl_xtor_func_t *cf;
+    void *pr;
+    ONCE(1, "guarded_ptr.init", cstl_guarded_ptr_init(A(&gp[0]))); ONCE(1, "guarded_ptr.init", cstl_guarded_ptr_init(A(&gp[1])));
+    ONCE(2, "guarded_ptr.set", cstl_guarded_ptr_set(A(&gp[0]), A(&word)));
+    c = 0; p = cstl_guarded_ptr_get(&gp[c++]); CK(c == 1 && p == &word, "once.cursor.guarded_ptr.get", "get(&gp[c++]) advanced the cursor %d times", c);
+    ONCE(1, "guarded_ptr.get", p = cstl_guarded_ptr_get(A(&gp[0]))); CK(p == &word, "once.guarded_ptr.get.result", "wrong pointer");
+    ONCE(1, "guarded_ptr.get_const", p = (void *)cstl_guarded_ptr_get_const(A(&gp[0]))); CK(p == &word, "once.guarded_ptr.get_const.result", "wrong pointer");
+    ONCE(2, "guarded_ptr.copy", cstl_guarded_ptr_copy(A(&gp[1]), A(&gp[0]))); CK(cstl_guarded_ptr_get(&gp[1]) == &word, "once.guarded_ptr.copy.result", "wrong pointer");
+    cstl_guarded_ptr_set(&gp[1], NULL);
+    ONCE(2, "guarded_ptr.swap", cstl_guarded_ptr_swap(A(&gp[0]), A(&gp[1]))); CK(cstl_guarded_ptr_get(&gp[1]) == &word && cstl_guarded_ptr_get(&gp[0]) == NULL, "once.guarded_ptr.swap.result", "pointers after swap");
+
+    ONCE(1, "unique_ptr.init", cstl_unique_ptr_init(A(&up[0]))); ONCE(1, "unique_ptr.init", cstl_unique_ptr_init(A(&up[1])));
+    cleared = 0;
+    ONCE(4, "unique_ptr.alloc", cstl_unique_ptr_alloc(A(&up[0]), A(24), A(clr), A(&word)));
+    c = 0; p = cstl_unique_ptr_get(&up[c++]); CK(c == 1 && p != NULL, "once.cursor.unique_ptr.get", "get(&up[c++]) advanced the cursor %d times", c);
+    ONCE(1, "unique_ptr.get", q = cstl_unique_ptr_get(A(&up[0]))); CK(q == p, "once.unique_ptr.get.result", "wrong pointer");
+    ONCE(1, "unique_ptr.get_const", q = (void *)cstl_unique_ptr_get_const(A(&up[0]))); CK(q == p, "once.unique_ptr.get_const.result", "wrong pointer");
+    ONCE(2, "unique_ptr.swap", cstl_unique_ptr_swap(A(&up[0]), A(&up[1]))); CK(cstl_unique_ptr_get(&up[1]) == p && cstl_unique_ptr_get(&up[0]) == NULL, "once.unique_ptr.swap.result", "pointers after swap");
+    ONCE(3, "unique_ptr.release", q = cstl_unique_ptr_release(A(&up[1]), A(&cf), A(&pr))); CK(q == p && cf == clr && pr == &word && cleared == 0, "once.unique_ptr.release.result", "released pointer / callback / priv");
+    free(q);        /* library block, released to the caller: the caller frees it (counted as a library free by the wrapper) */
+    ONCE(4, "unique_ptr.alloc", cstl_unique_ptr_alloc(A(&up[1]), A(8), A(clr), A(NULL)));
+    ONCE(1, "unique_ptr.reset", cstl_unique_ptr_reset(A(&up[1]))); CK(cleared == 1, "once.unique_ptr.reset.result", "%d callbacks", cleared);
+
+    ONCE(1, "shared_ptr.init", cstl_shared_ptr_init(A(&sp[0]))); ONCE(1, "shared_ptr.init", cstl_shared_ptr_init(A(&sp[1])));
+    ONCE(1, "weak_ptr.init", cstl_weak_ptr_init(A(&wp[0]))); ONCE(1, "weak_ptr.init", cstl_weak_ptr_init(A(&wp[1])));
+    cleared = 0;
+    ONCE(3, "shared_ptr.alloc", cstl_shared_ptr_alloc(A(&sp[0]), A(32), A(clr)));
+    c = 0; p = cstl_shared_ptr_get(&sp[c++]); CK(c == 1 && p != NULL, "once.cursor.shared_ptr.get", "get(&sp[c++]) advanced the cursor %d times", c);
+    c = 0; b = cstl_shared_ptr_unique(&sp[c++]); CK(c == 1 && b, "once.cursor.shared_ptr.unique", "unique(&sp[c++]) advanced the cursor %d times", c);
+    ONCE(1, "shared_ptr.get", q = cstl_shared_ptr_get(A(&sp[0]))); CK(q == p, "once.shared_ptr.get.result", "wrong pointer");
+    ONCE(1, "shared_ptr.get_const", q = (void *)cstl_shared_ptr_get_const(A(&sp[0]))); CK(q == p, "once.shared_ptr.get_const.result", "wrong pointer");
+    ONCE(1, "shared_ptr.unique", b = cstl_shared_ptr_unique(A(&sp[0]))); CK(b, "once.shared_ptr.unique.result", "sole owner not unique");
+    ONCE(2, "shared_ptr.share", cstl_shared_ptr_share(A(&sp[0]), A(&sp[1]))); CK(cstl_shared_ptr_get(&sp[1]) == p && !cstl_shared_ptr_unique(&sp[0]), "once.shared_ptr.share.result", "co-owner");
+    ONCE(1, "shared_ptr.reset", cstl_shared_ptr_reset(A(&sp[1])));
+    ONCE(2, "shared_ptr.swap", cstl_shared_ptr_swap(A(&sp[0]), A(&sp[1]))); CK(cstl_shared_ptr_get(&sp[1]) == p && cstl_shared_ptr_get(&sp[0]) == NULL, "once.shared_ptr.swap.result", "pointers after swap");
+    ONCE(2, "weak_ptr.from", cstl_weak_ptr_from(A(&wp[0]), A(&sp[1])));
+    ONCE(2, "weak_ptr.swap", cstl_weak_ptr_swap(A(&wp[0]), A(&wp[1])));
+    ONCE(2, "weak_ptr.lock", cstl_weak_ptr_lock(A(&wp[1]), A(&sp[0]))); CK(cstl_shared_ptr_get(&sp[0]) == p, "once.weak_ptr.lock.result", "lock did not yield the owner");
+    ONCE(1, "shared_ptr.reset", cstl_shared_ptr_reset(A(&sp[0]))); CK(cleared == 0, "once.shared_ptr.reset.result", "destroyed while an owner exists");
+    ONCE(1, "shared_ptr.reset", cstl_shared_ptr_reset(A(&sp[1]))); CK(cleared == 1, "once.shared_ptr.reset.result", "%d callbacks at the last owner", cleared);
+    ONCE(2, "weak_ptr.lock", cstl_weak_ptr_lock(A(&wp[1]), A(&sp[0]))); CK(cstl_shared_ptr_get(&sp[0]) == NULL, "once.weak_ptr.lock.result", "lock of an expired weak pointer yielded an owner");
+    ONCE(1, "weak_ptr.reset", cstl_weak_ptr_reset(A(&wp[1]))); ONCE(1, "weak_ptr.reset", cstl_weak_ptr_reset(A(&wp[0])));
+    CK(vrt_lib_live() == 0, "once.memory.leak", "library blocks left");
+}
+
+static const struct { const char *name; void (*f)(void); void (*once)(void); } fam[] = {
+    { "trees", f_trees, once_trees }, { "heap", f_heap, once_heap }, { "hash", f_hash, once_hash }, { "map", f_map, once_map },
+    { "vector", f_vector, once_vector }, { "string", f_string, once_string },
+    { "dlist", f_dlist, once_dlist }, { "slist", f_slist, once_slist }, { "array", f_array, once_array }, { "memory", f_memory, once_memory },
 };
 #define NFAM ((int)(sizeof(fam) / sizeof(fam[0])))
 static uint64_t ncases(void) { return 1; }
@@ -560,11 +970,13 @@ static void run_case(uint64_t idx)
         vrt_case_note("look - change - look again in one optimised caller function: %s", fam[k].name);
         vrt_state(fam[k].name);
         fam[k].f();
+        vrt_state("side-effect-arguments");
+        fam[k].once();
         vrt_sig(0, vrt_mix(0x4e4e, (uint64_t)k));
         VRT_COUNT("reread.families");
     }
 }
 static void winit(void) { vrt_sig_name(0, "families"); }
-static const char *const required[] = { "reread.families", "reread.rounds", NULL };
+static const char *const required[] = { "reread.families", "reread.rounds", "reread.once-calls", NULL };
 static const struct vrt_harness H = { "reread", ncases, run_case, winit, NULL, required, 1 };
 int main(int argc, char **argv) { return vrt_main(argc, argv, &H); }
